@@ -117,6 +117,7 @@ def run(ctx):
     n_ds = 24 if quick else 150
     tmp = tempfile.mkdtemp(prefix='c17_', dir=os.environ.get('VERIF_WORK', '/verif/work'))
     exprs, plans = [], []
+    tc_exprs, tc_plans = [], []
     try:
         for n in range(n_ds):
             fam = rng.choice(gen.FAMILIES)
@@ -133,6 +134,18 @@ def run(ctx):
             tvals = numpy.arange(nt, dtype='f8') * (rng.choice([1, 2, 30]) if period == 'seconds' else rng.choice([1, 2, 0.5, 0.25]))
             ds = ds.assign_coords({tname: xarray.DataArray(tvals, dims=['record'], attrs={
                 'units': units, 'calendar': 'proleptic_gregorian', 'standard_name': 'time', 'coordinate_type': 'time'})})
+            # cell bounds of the time axis (CF 7.1): none, inheriting the coordinate's units, or carrying units of their own
+            tb = rng.choice(['none', 'none', 'inherit', 'own_units'])
+            if tb != 'none':
+                step = float(tvals[1] - tvals[0]) if nt > 1 else 1.0
+                battrs = {}
+                bvals = numpy.stack([tvals, tvals + step], axis=-1)
+                if tb == 'own_units':
+                    # whole hours since another epoch: every bound is an exact instant
+                    battrs = {'units': 'hours since 2001-03-04 00:00:00', 'calendar': 'proleptic_gregorian'}
+                    bvals = numpy.stack([numpy.arange(nt, dtype='f8') * 6, numpy.arange(nt, dtype='f8') * 6 + 6], axis=-1)
+                ds[f'{tname}_bnds'] = xarray.DataArray(bvals, dims=['record', 'tnv'], attrs=battrs)
+                ds[tname].attrs['bounds'] = f'{tname}_bnds'
             kinds = d.spec['kinds']
             added = gen.add_data_vars(rng, ds, kinds, fixed_extra=[('record', nt)], names_prefix='w',
                                       dtypes=('f8', 'f8', 'i4', 'i4fill'))
@@ -164,9 +177,32 @@ def run(ctx):
             case = {'dataset': d.spec['label'], 'time_units': units, 'offset_minutes': off, 'fill_values': fills}
             ctx.case((d.spec['label'], units, str(fills)), True, sample=case if n < 2 else None)
             ctx.count(f'family:{d.family}')
+            ctx.count(f'time_bounds:{tb}')
+            case['time_bounds'] = tb
             ctx.count(f'save_offset:{"negative" if off < 0 else "nonneg"}{",fractional" if off % 60 else ""}')
             for fv in fills.values():
                 ctx.count(f'float_fill:{fv}')
+            # which variable is taken for the time coordinate (conventions that search for it; SHOC looks it up by name)
+            from emsarray.conventions import Convention
+            if type(first.ems).time_coordinate is Convention.time_coordinate:
+                vnames = [str(v) for v in first.variables]
+                lits = []
+                for v in vnames:
+                    a = first[v]
+                    b = a.attrs.get('bounds')
+                    lits.append('{| tv_name := %d; tv_datetime := %s; tv_since := %s; tv_bounds := %s |}' % (
+                        vnames.index(v), 'true' if a.dtype.type == numpy.datetime64 else 'false',
+                        'true' if 'since' in str(a.encoding.get('units', '')) else 'false',
+                        f'Some {vnames.index(b)}' if b in vnames else ('Some 9999' if b is not None else 'None')))
+                with warnings.catch_warnings():
+                    warnings.simplefilter('ignore')
+                    tc = attempt(lambda: str(first.ems.time_coordinate.name))
+                tc_exprs.append('(show (time_coordinate [' + '; '.join(lits) + ']))')
+                tc_plans.append((case, vnames, tc))
+                ctx.count('time_coordinate_searched')
+                if tc[0] == 'ok' and any(first[v].attrs.get('bounds') == tc[1] for v in vnames):
+                    ctx.report('property', f'the time coordinate of the dataset is taken to be {tc[1]}, the bounds variable of '
+                               f'another variable: that is what ems.to_netcdf rewrites as the time variable', case)
             dst = os.path.join(tmp, f'dst_{n}.nc')
             # how the time values get encoded on the second write
             variant = rng.choice(['as_read', 'as_read', 'int_time', 'override'])
@@ -239,6 +275,13 @@ def run(ctx):
             second.close()
         model = coq_eval_sharded(['Model.TimeUnits'], exprs, shard=20, workers=8)
         ctx.leg('save_reopen_cases', len(exprs))
+        tmodel = coq_eval_sharded(['Model.TimeCoord'], tc_exprs, shard=20, workers=8)
+        ctx.leg('time_coordinate_cases', len(tc_exprs))
+        for (case, vnames, tc), mres in zip(tc_plans, tmodel):
+            want = None if mres is None else vnames[mres.v]
+            got = tc[1] if tc[0] == 'ok' else None
+            if want != got:
+                ctx.report('correspondence', f'model time_coordinate = {want}, implementation {tc}', case, found_input=False)
         for (case, new_units), mres in zip(plans, model):
             if codes(new_units) != mres:
                 ctx.report('correspondence', f'units in the saved file {new_units!r}, model {"".join(map(chr, mres))!r}', case,
